@@ -248,7 +248,7 @@ impl<'tcx> Cx<'tcx> {
         let cty = c.const_.ty();
         let mut fields: Vec<(&str, J)> = vec![
             ("k", J::s("const")),
-            ("text", J::s(&format!("{:?}", c.const_))),
+            ("text", J::s(&format!("{}", c))),
             ("ty", J::s(&format!("{}", cty))),
         ];
         match cty.kind() {
@@ -264,6 +264,9 @@ impl<'tcx> Cx<'tcx> {
         // Named constant?
         if let mir::Const::Unevaluated(uv, _) = c.const_ {
             fields.push(("name", J::s(&dpath(tcx, uv.def))));
+            if let Some(p) = uv.promoted {
+                fields.push(("promoted", J::i(p.index() as i128)));
+            }
         }
         if !cty.has_param() || matches!(cty.kind(), ty::Bool | ty::Int(_) | ty::Uint(_) | ty::Float(_) | ty::Char) {
             let is_scalar_ty = matches!(
@@ -756,6 +759,7 @@ fn dump_crate<'tcx>(tcx: TyCtxt<'tcx>) -> J {
     let cx = Cx { tcx };
     let mut bodies: Vec<J> = Vec::new();
     let mut probes: Vec<J> = Vec::new();
+    let mut missing: Vec<J> = Vec::new();
 
     // Coroutine bodies captured in the mir_promoted provider.
     let stash: Vec<(LocalDefId, usize)> = std::mem::take(&mut *STASH.lock().unwrap());
@@ -776,16 +780,52 @@ fn dump_crate<'tcx>(tcx: TyCtxt<'tcx>) -> J {
                 // compilation session; the arena it refers to is alive.
                 let body: &Body<'tcx> = unsafe { &*(*p as *const Body<'tcx>) };
                 bodies.push(cx.body_json(def, body, "promoted"));
+            } else {
+                missing.push(J::s(&dpath(tcx, did)));
             }
             continue;
         }
         // const fns are fine too
         let steal = tcx.mir_drops_elaborated_and_const_checked(def);
         if steal.is_stolen() {
+            missing.push(J::s(&dpath(tcx, did)));
             continue;
         }
         let body = steal.borrow();
-        bodies.push(cx.body_json(def, &body, "elab"));
+        let mut bj = cx.body_json(def, &body, "elab");
+        // promoted constants: which named constants / literals each promoted body mentions
+        let mut proms: Vec<J> = Vec::new();
+        for (pi, pbody) in tcx.promoted_mir(did).iter_enumerated() {
+            let mut names: Vec<J> = Vec::new();
+            for data in pbody.basic_blocks.iter() {
+                for st in data.statements.iter() {
+                    if let StatementKind::Assign(b) = &st.kind {
+                        let mut ops: Vec<&Operand<'tcx>> = Vec::new();
+                        match &b.1 {
+                            Rvalue::Use(op, ..) | Rvalue::Cast(_, op, _) | Rvalue::Repeat(op, _) => ops.push(op),
+                            Rvalue::Aggregate(_, os) => ops.extend(os.iter()),
+                            Rvalue::BinaryOp(_, ab) => { ops.push(&ab.0); ops.push(&ab.1); }
+                            Rvalue::UnaryOp(_, a) => ops.push(a),
+                            _ => {}
+                        }
+                        for op in ops {
+                            if let Operand::Constant(c) = op {
+                                let mut f: Vec<(&str, J)> = vec![("text", J::s(&format!("{:?}", c.const_)))];
+                                if let mir::Const::Unevaluated(uv, _) = c.const_ {
+                                    f.push(("name", J::s(&dpath(tcx, uv.def))));
+                                }
+                                names.push(J::obj(f));
+                            }
+                        }
+                    }
+                }
+            }
+            proms.push(J::obj(vec![("idx", J::i(pi.index() as i128)), ("consts", J::arr(names))]));
+        }
+        if let J::Obj(ref mut v) = bj {
+            v.push(("promoted".to_string(), J::arr(proms)));
+        }
+        bodies.push(bj);
 
         // probe calls
         for data in body.basic_blocks.iter() {
@@ -914,6 +954,7 @@ fn dump_crate<'tcx>(tcx: TyCtxt<'tcx>) -> J {
         ("statics", J::arr(statics)),
         ("fns", J::arr(fns)),
         ("probes", J::arr(probes)),
+        ("missing", J::arr(missing)),
     ])
 }
 
